@@ -1,6 +1,7 @@
 package gsim
 
 import (
+	"encoding/json"
 	"fmt"
 	"math/rand"
 	"sort"
@@ -340,7 +341,35 @@ func f3Probe(mons func(*Sim), routing bool) *Sim {
 	return s
 }
 
+// runRoutingConcurrent runs the concurrent routing leg for property prop.
+func runRoutingConcurrent(sh *core.Shard, a props.Args, prop string, rounds int) bool {
+	for i := 0; i < rounds; i++ {
+		if !a.Mine(i) {
+			continue
+		}
+		seed := a.CaseSeed(3_000_000 + i)
+		sig, what, w, compared := RoutingConcRound(seed)
+		sh.Count("concurrent_routing_rounds", 1)
+		sh.Count("concurrent_routing_nodes_compared", compared)
+		if sig != "" {
+			fmt.Printf("CASE %s concurrent routing round=%d seed=%d\n", prop, i, seed)
+			w.Prop = prop
+			sh.Violate(sig, fmt.Sprintf("concurrent feeding of one node's gossip state, round %d (%d goroutines), at quiescence: %s", i, len(w.Scripts), what), w)
+			return false
+		}
+	}
+	return true
+}
+
+// RunRoutingConcurrent is the same leg for checks in other packages (C20).
+func RunRoutingConcurrent(sh *core.Shard, a props.Args, prop string, rounds int) bool {
+	return runRoutingConcurrent(sh, a, prop, rounds)
+}
+
 func runC04(sh *core.Shard, a props.Args) {
+	if !runRoutingConcurrent(sh, a, "C04", a.Pick(30000, 1000000)) {
+		return
+	}
 	runs := a.Pick(480, 16000)
 	steps := a.Pick(600, 1400)
 	if a.Shard == 0 {
@@ -416,13 +445,24 @@ func init() {
 		ID: "C04", Level: "exploration",
 		Rule: "simulator runs in which every node carries the real cluster.State and the real syncer as gossip watcher; owners add/remove endpoints through cluster.State (so publication runs through the real subscriber), with compaction, leave, crash, logical-clock liveness, early/due/late sweeps, late-starting nodes, loss/dup/delay/truncation and stream join/leave. After every step, for every (observer, owner): (i) routing table entry == function of the gossip view (addresses, endpoint counts; pending iff an address is missing), (ii) view caught up with the owner => table entry == the owner's own endpoints and addresses (pairs tainted by known finding F3 are reported as KNOWN-FINDING; half of the runs have no expiry so no pair can be tainted), (iii) LookupEndpoint for every endpoint id returns only a non-local, active, advertising node and returns one whenever the table holds such a node; plus owner-side publication == local table. Non-trivial = a withdrawal observed at a caught-up observer, an endpoint seen while the node was pending, and caught-up pair-steps > 0; distinct = hash of (variant, config, counts, final states).",
 		Assumptions: []string{
-			"sequentially consistent scheduler (true concurrency of syncer/cluster state is C20's job)",
+			"the simulator legs use a sequentially consistent scheduler; the concurrent leg (one observer with real gossip state, syncer and cluster.State fed digests/deltas of 3-5 mutually known owners from 3-5 goroutines together with liveness flips and expiry sweeps, owners adding/withdrawing endpoints, compacting and leaving meanwhile) is judged with rule (i) at quiescence only",
 			"logical-clock failure detector and logical expiry as in C11",
 			"a node learned as left while still pending may be absent from the table (harmless: lookups skip left nodes)",
 		},
-		RequireCounters: []string{"withdrawals_observed", "endpoint_seen_while_pending", "caught_up_pair_steps", "lookups_hit", "table_view_checks", "compactions", "truncated_deltas"},
+		RequireCounters: []string{"withdrawals_observed", "endpoint_seen_while_pending", "caught_up_pair_steps", "lookups_hit", "table_view_checks", "compactions", "truncated_deltas", "concurrent_routing_rounds", "concurrent_routing_nodes_compared"},
 		Timeout:         simTimeout(10*time.Minute, 90*time.Minute),
 		Run:             runC04,
-		Replay:          replayWith(c04Monitors),
+		Replay: func(raw json.RawMessage) (string, bool) {
+			var cw RouteConcWitness
+			if json.Unmarshal(raw, &cw) == nil && cw.Kind == "routing-concurrent" {
+				for i := 0; i < 20000; i++ {
+					if sig, what, _, _ := RoutingConcRound(cw.Seed); sig != "" {
+						return fmt.Sprintf("[%s] %s (repetition %d)", sig, what, i), true
+					}
+				}
+				return "20000 repetitions of the round showed nothing; recorded: [" + cw.Sig + "] " + cw.What, false
+			}
+			return replayWith(c04Monitors)(raw)
+		},
 	})
 }
